@@ -261,6 +261,21 @@ func init() {
 					ff[name] = lv
 				}
 			}
+			// a collection that reports a total smaller than the list the update brings (the update itself reports none)
+			if strings.Contains(goType, "Collection") && c.R.Chance(25) {
+				itemsField := "Items"
+				if strings.HasPrefix(goType, "Ordered") {
+					itemsField = "OrderedItems"
+				}
+				tf["TotalItems"] = T{"uint": 1 + c.R.Intn(3)}
+				delete(ff, "TotalItems")
+				l := []interface{}{}
+				for k := 4 + c.R.Intn(3); k > 0; k-- {
+					l = append(l, T{"iri": g2.nextID("member")})
+				}
+				ff[itemsField] = T{"list": l}
+				tag = "total-and-longer-list/" + goType
+			}
 			// lists that share storage (the trees say what each holds; the sharing is applied to the built values)
 			var alias interface{}
 			if c.R.Chance(20) {
